@@ -40,6 +40,7 @@ from __future__ import annotations
 import json
 import os
 import random
+import re
 import signal
 import sys
 import time
@@ -55,10 +56,9 @@ from bounded.common import JOBS, Budget, bitem, chunked, pmap
 PROP = 'C02'
 FUNCTION = ('exec(tatsu.to_python_sourcecode(g))[<Name>Parser]().parse(text, **s) == tatsu.compile(g).parse(text, **s) '
             '(ngparser_gen.PythonParserGenerator.walk_* + contexts/context.py managers vs peg model nodes)')
-RULE = ('a case is (grammar, input, setting); distinct non-trivial = distinct (grammar, input, setting) for which at '
-        'least one back end accepted the input or both consumed at least one token before failing is not observable '
-        'through the API, so: cases in which at least one side returned a result, plus the rejected cases of grammars '
-        'that accept some input of the battery under that setting (the rejection is then a decision, not a dead grammar)')
+RULE = ('a case is (grammar, input, setting); distinct non-trivial = cases in which at least one back end accepted the '
+        'input, plus the rejected cases of a (grammar, setting) pair that accepts some input of its battery (the rejection '
+        'is then a decision of the grammar, not a dead grammar)')
 
 
 # --------------------------------------------------------------------------------------------------
@@ -267,6 +267,7 @@ TEXT_GRAMMARS = (
      ('c d i l', 'c d i i l', 'c d l', 'cdil')),
     ('python-keyword-rule-names-2', "start = (if | else | not | pass)+ $ ;\nif = 'i' ;\nelse = 'e' ;\nnot = 'n' ;\npass = 'p' ;",
      ('i', 'i e n p', 'p p', 'x')),
+    ('rule-names-differing-by-trailing-underscore', "start = class class_ $ ;\nclass = 'a' ;\nclass_ = 'b' ;", ('a b', 'b b', 'a a')),
     ('builtin-rule-names', "start = list dict print type id str $ ;\nlist = 'l' ;\ndict = 'd' ;\nprint = 'p' ;\ntype = 't' ;\n"
                            "id = 'i' ;\nstr = 's' ;",
      ('l d p t i s', 'l d p t i', 'ldptis')),
@@ -333,7 +334,10 @@ TEXT_GRAMMARS = (
     ('semantics-rule-names', "start = class num $ ;\nclass = 'k' ;\nnum(base=10) = /\\d+/ ;", ('k 1', 'k', '1')),
     ('memoization-directive', "@@memoization :: False\nstart = x 'b' | x 'c' ;\nx = 'a' ;", ('a b', 'a c', 'a')),
 )
-TEXT_GRAMMARS = tuple(t for t in TEXT_GRAMMARS if t[0] != 'token-rule-with-params')
+TEXT_GRAMMARS = tuple(t for t in TEXT_GRAMMARS if t[0] != 'token-rule-with-params') + (
+    # more repetitions in one rule than the generator has one-letter block names for (52)
+    ('many-closures-in-one-rule', 'start = ' + ' '.join("{'a%d'}" % i for i in range(54)) + ' $ ;', ('a1 a1 a5', 'a53', 'a54')),
+)
 
 TEXT_SETTINGS = SETTINGS + (
     ('whitespace-tab-only', {'whitespace': '\t+'}),
@@ -370,7 +374,7 @@ def description_grammars(tier, seed):
     """[(label, desc, alphabet)]: label 'desc' (seeded sample), 'matrix' (naming matrix), 'cut' (CUT_GRAMMARS)"""
     rnd = random.Random(seed)
     out = []
-    n1, n2, n3 = (30, 35, 25) if tier == 'quick' else (1200, 1200, 800)
+    n1, n2, n3 = (30, 35, 25) if tier == 'quick' else (450, 450, 300)
     pool1 = G.single_rule(3)
     pool4 = G.single_rule(4, 'core', exact=True)
     pool2 = G.two_rule(2, 2)
@@ -413,6 +417,8 @@ def model_kinds(model):
 
     def walk(n):
         kinds.add(type(n).__name__)
+        if isinstance(n, peg.Sequence):
+            opmap.setdefault(('seqnames',), set()).update(n.defines_single, n.defines_list)
         if isinstance(n, (peg.Named, peg.NamedList)):
             opmap.setdefault(n.name, set()).add(type(n.exp).__name__)
             opmap.setdefault(('below', n.name), set()).update(below(n.exp, set()))
@@ -458,6 +464,9 @@ def diff_keys(a, b, acc, key=None):
 def classify(text, src, kinds, opmap, inp, sval, m, g, rerun):
     """name the class of a disagreement (model outcome m, generated outcome g).  `rerun(extra)` evaluates the
     same case again with extra parse-time settings -> (m, g)."""
+    defs = re.findall(r'^    def (\w+)\(self, ctx: Ctx\)', src, re.M)
+    if len(defs) != len(set(defs)):
+        return 'rule-names-collide-after-python-safe-renaming'  # two rules became one method
     if 'SkipTo' in kinds and 'with ctx.skipto():' in src:
         return 'skipto-body-not-passed-as-closure'  # (the emitted block has no `as cl` / `@cl.exp`)
     if 'BasedRule' in kinds:
@@ -497,6 +506,12 @@ def classify(text, src, kinds, opmap, inp, sval, m, g, rerun):
     if ops & ({'Optional'} | VALUELESS):
         return 'name-binds-stale-previous-node' if _none_on_model_side(m[1], g[1]) else 'void-or-lookahead-value-differs'
     if any(kind == 'missing' for kind, _k in d):
+        missing = {k for kind, k in d if kind == 'missing' and k is not None}
+        if ('missing', None) in d:
+            missing |= set(m[1] if isinstance(m[1], dict) else g[1] if isinstance(g[1], dict) else ())
+        if missing & opmap.get(('seqnames',), set()):
+            return 'sequence-does-not-predefine-its-names'
+        # an optional / an option that is not a sequence pre-defines its names in the model only
         return 'names-predefined-by-sequences-only'
     return f'ast-differs/{tail}'
 
